@@ -42,6 +42,8 @@ try:
     for f in glob.glob(os.path.join(wt, "jen", "zz_*")): os.remove(f)
     shutil.rmtree(os.path.join(wt, "zzdemo"), ignore_errors=True)
     r = subprocess.run(["git", "-C", wt, "apply", os.path.join(src, "patch.diff")], capture_output=True, text=True)
+    if r.returncode != 0:
+        r = subprocess.run(["git", "-C", wt, "apply", "--3way", os.path.join(src, "patch.diff")], capture_output=True, text=True)
     res["patch_applies"] = (r.returncode, r.stderr)
     res["suite_with_change"] = sh("go build ./... && go test -vet=off -count=1 ./... 2>&1 | tail -5", wt)
     place()
